@@ -438,7 +438,7 @@ Definition py_setattr (o : pv) (name : string) (v : pv) : pr pv :=
   | _ => PStuck
   end.
 
-(* a format expression ("..." % x, f-strings): the text is not modelled; the translator only admits
+(* a format expression ("..." % x, f-strings): the text is not modelled; the translator only accepts
    it where the value flows into log calls and exception messages *)
 Definition py_opaque_text : pr pv := POk (VStr []).
 
